@@ -317,6 +317,42 @@ pub fn replay(case: &Value) -> Vec<Obs> {
         else { obs.push(Obs::bad("C10", "query-built-on-another-thread", format!("{} :: reference {} / solved on a second thread {:?}", what, show_segs(&expect),
                     got.map(|v| v.iter().map(|(s, a)| if *s { format!("({})", show_vec(a)) } else { "none".into() }).collect::<Vec<_>>().join(" "))))); }
     }
+    // C10: two searches alive at the same time (both queries built first, then asked in turn): the ids a clause gets
+    // in one search must not be in use in that search, whatever the other one did to the id counter in between
+    if (slice == "lists" || slice == "alias" || slice == "andor") && first_part_ok && expect.len() >= 2 {
+        let n_ask = expect.len();
+        let mut bad: Option<String> = None;
+        for schedule in ["in turn", "second one behind"] {
+            start_query();
+            let qa = Rc::new(make_query(qterms.clone()));
+            let qb = Rc::new(make_query(qterms.clone()));
+            let args_of = |q: &Goal| -> Vec<Tm> { match q { Goal::ComplexGoal(Unifiable::SComplex(v)) => v[1..].iter().map(project).collect(), _ => vec![] } };
+            let (aa, ab) = (args_of(&qa), args_of(&qb));
+            let sa = make_base_node(Rc::clone(&qa), &kb);
+            let sb = make_base_node(Rc::clone(&qb), &kb);
+            let mut order: Vec<u8> = vec![];
+            if schedule == "in turn" { for _ in 0..n_ask { order.push(0); order.push(1); } }
+            else { order.push(0); for _ in 1..n_ask { order.push(0); order.push(1); } order.push(1); }
+            let (mut ga, mut gb): (Vec<(bool, Vec<Tm>)>, Vec<(bool, Vec<Tm>)>) = (vec![], vec![]);
+            let mut panicked = false;
+            for who in order {
+                let (sn, args, got) = if who == 0 { (&sa, &aa, &mut ga) } else { (&sb, &ab, &mut gb) };
+                match catch_unwind(AssertUnwindSafe(|| next_solution(Rc::clone(sn)).map(|s| (*s).clone()))) {
+                    Ok(Some(ss)) => got.push((true, canon(&args.iter().map(|t| resolve(t, &ss)).collect::<Vec<_>>()))),
+                    Ok(None) => got.push((false, vec![])),
+                    Err(_) => { panicked = true; break; }
+                }
+            }
+            capture::take();
+            let same = |g: &Vec<(bool, Vec<Tm>)>| g.len() == n_ask && (0..n_ask).all(|i| g[i].0 == exp_at(i).some && g[i].1 == exp_at(i).ans);
+            if panicked || !same(&ga) || !same(&gb) {
+                let sh = |g: &Vec<(bool, Vec<Tm>)>| g.iter().map(|(s, a)| if *s { format!("({})", show_vec(a)) } else { "none".into() }).collect::<Vec<_>>().join(" ");
+                bad = Some(format!("{} :: two searches of the query asked {}: reference {} / first {} / second {}{}", what, schedule, show_segs(&expect), sh(&ga), sh(&gb), if panicked { " PANIC" } else { "" }));
+                break;
+            }
+        }
+        match bad { None => obs.push(Obs::ok("C10", "two-live-searches")), Some(d) => obs.push(Obs::bad("C10", "two-live-searches", d)) }
+    }
     if slice == "alias" {
         if run.cycle { obs.push(Obs::bad("C08", "cycle", detail.clone())); } else { obs.push(Obs::ok("C08", "acyclic")); }
     }
